@@ -47,10 +47,6 @@ func runC17Mono(c *Ctx) {
 	// SSA: every error emission in the validator's methods must not be controlled by isRef == false
 	n := 0
 	for _, fn := range p.Funcs {
-		recv := fn.Signature.Recv()
-		if recv == nil || pointeeName(recv.Type()) != "globValidator" {
-			continue
-		}
 		occ := map[string]int{}
 		eachInstr(fn, func(b *ssa.BasicBlock, _ int, in ssa.Instruction) {
 			call, ok := in.(ssa.CallInstruction)
@@ -72,23 +68,17 @@ func runC17Mono(c *Ctx) {
 			k := FuncName(fn) + "|" + g.Name()
 			occ[k]++
 			construct := fmt.Sprintf("%s#%d", k, occ[k])
-			pathOnly := false
-			for ifi, outcome := range controllingConds(b) {
-				cond := ifi.Cond
-				neg := false
-				if un, ok := cond.(*ssa.UnOp); ok && un.Op == token.NOT {
-					cond, neg = un.X, true
-				}
-				if ld, ok := cond.(*ssa.UnOp); ok && ld.Op == token.MUL {
-					if fa, ok := ld.X.(*ssa.FieldAddr); ok && fieldAddrName(fa) == "globValidator.isRef" {
-						if outcome == neg { // reached when isRef is false
-							pathOnly = true
-						}
-					}
+			pathOnly := isRefFalseControls(b)
+			via := ""
+			if !pathOnly {
+				// the emission sits in a helper: it is path-only when a call on the way to it is
+				if site := pathOnlyCallSite(p, fn, map[*ssa.Function]bool{}); site != nil {
+					pathOnly = true
+					via = " (through the call at " + p.Pos(site.Pos()) + ", which is only made for path filters)"
 				}
 			}
 			if pathOnly {
-				c.bad(construct, call.Pos(), "this error is only reported when the pattern is validated as a path filter: a pattern accepted as a ref filter could be rejected as a path filter")
+				c.bad(construct, call.Pos(), "this error is only reported when the pattern is validated as a path filter"+via+": a pattern accepted as a ref filter could be rejected as a path filter")
 			} else {
 				c.ok(construct, call.Pos(), "reported for both kinds, or for refs only")
 			}
@@ -120,6 +110,47 @@ func runC17Mono(c *Ctx) {
 	if n == 0 {
 		c.undecided("globValidator|error emissions", 0, "no error emission found")
 	}
+}
+
+// isRefFalseControls: the block is only reached when globValidator.isRef was found false.
+func isRefFalseControls(b *ssa.BasicBlock) bool {
+	for ifi, outcome := range controllingConds(b) {
+		cond := ifi.Cond
+		neg := false
+		if un, ok := cond.(*ssa.UnOp); ok && un.Op == token.NOT {
+			cond, neg = un.X, true
+		}
+		if ld, ok := cond.(*ssa.UnOp); ok && ld.Op == token.MUL {
+			if fa, ok := ld.X.(*ssa.FieldAddr); ok && fieldAddrName(fa) == "globValidator.isRef" {
+				if outcome == neg { // reached when isRef is false
+					return true
+				}
+			}
+		}
+	}
+	return false
+}
+
+// pathOnlyCallSite: a call, on some chain of calls that ends in fn, that is only
+// made when isRef is false.
+func pathOnlyCallSite(p *Prog, fn *ssa.Function, seen map[*ssa.Function]bool) ssa.CallInstruction {
+	if seen[fn] {
+		return nil
+	}
+	seen[fn] = true
+	for _, e := range p.callersOf(fn) {
+		if e.Site == nil || e.Caller == nil || e.Caller.Func == nil {
+			continue
+		}
+		caller := e.Caller.Func
+		if isRefFalseControls(e.Site.Block()) {
+			return e.Site
+		}
+		if s := pathOnlyCallSite(p, caller, seen); s != nil {
+			return s
+		}
+	}
+	return nil
 }
 
 func runC17Arg(c *Ctx) {
